@@ -64,6 +64,7 @@ def run(ctx):
     ctx.assume("MockProvider flavours are the environment", "virtual clock; ageing 0",
                "the resolver is the application's; its behaviours are the nine listed answers")
     ctx.model_check("SysMC", "MC_SysMC.cfg", "design: contract guards", workers=4)
+    sc.run_exemplars(ctx, CLAUSES, extra_sig=xsig)
     if ctx.tier == "quick":
         cases = generate(ctx, 1, ["N", "I"])
         flavors = ["oid/oid", "path/oidf"]
